@@ -233,9 +233,23 @@ pub fn ev_bin<S: Src>(s: &mut S, lo: u8, hi: u8, bits: u32) {
     let mut a = s.i64();
     let mut b = s.i64();
     if bits < 64 {
+        // narrow operands (sign-extended from `bits`), or one of the boundary values of the
+        // 64-bit range - so that overflow corners stay inside the quick tier
         let sh = 64 - bits;
-        a = (a << sh) >> sh;
-        b = (b << sh) >> sh;
+        let edge = |sel: u8| -> i64 {
+            match sel {
+                0 => i64::MIN,
+                1 => i64::MAX,
+                2 => -1,
+                3 => i64::MIN + 1,
+                4 => 1i64 << 62,
+                _ => -(1i64 << 62),
+            }
+        };
+        let ea = s.below(7);
+        let eb = s.below(7);
+        a = if ea < 6 { edge(ea) } else { (a << sh) >> sh };
+        b = if eb < 6 { edge(eb) } else { (b << sh) >> sh };
     }
     let e = boxed_bin(Expr::Const(a), bin_at(op), Expr::Const(b));
     let ctx = Ctx::plain();
